@@ -110,10 +110,10 @@ theorem frameB_modUdb_addClient (r : UClient) (hr : r.app ≠ b) :
   frameB_modUdb (Usage.addClient_sameB r hr)
 
 theorem frameB_commit (b : String) (s : Sys) : FrameB b s s.commit :=
-  FrameB.of_eq commit_db commit_udb commit_conns commit_cfg
+  FrameB.of_eq (commit_db s) (commit_udb s) (commit_conns s) (commit_cfg s)
 
 theorem frameB_ucommit (b : String) (s : Sys) : FrameB b s s.ucommit :=
-  FrameB.of_eq ucommit_db ucommit_udb ucommit_conns ucommit_cfg
+  FrameB.of_eq (ucommit_db s) (ucommit_udb s) (ucommit_conns s) (ucommit_cfg s)
 
 theorem frameB_emit (b : String) (s : Sys) (e : Event) : FrameB b s (s.emit e) := FrameB.of_eq rfl rfl rfl rfl
 
@@ -242,7 +242,8 @@ theorem addMailbox_not_mem {m : String} {fn : Bool} {t : Time}
     (e : s.addMailbox a m fn t = some s') : m ∉ s'.db.mbIdsB b := by
   rcases addMailbox_cases e with ⟨rfl, hmb⟩ | ⟨rfl, hfree⟩
   · exact Chan.not_mem_mbIdsB_of_hasMb' hu hmb hab
-  · rw [(Chan.insMailbox_sameB (d := s.db) (b := b) ⟨a, m, t, fn⟩ hab).mbIdsB_eq]
+  · show m ∉ (s.db.insMailbox ⟨a, m, t, fn⟩).mbIdsB b
+    rw [(Chan.insMailbox_sameB (d := s.db) (b := b) ⟨a, m, t, fn⟩ hab).mbIdsB_eq]
     exact Chan.not_mem_mbIdsB_of_findById_none hfree
 
 theorem mailboxOpen_frameB' {m : String} (side : String) (t : Time) (hm : m ∉ s.db.mbIdsB b) :
@@ -385,7 +386,8 @@ theorem releaseNameplate_frameB_of_pinv {name side : String} {t : Time} {r : Boo
       · have f2 : FrameB b s (((s.modDb (·.unclaim np.id side)).commit).modDb
             (fun d => (d.delNpSidesOf np.id).delNameplate np.id)) := by
           refine f1.trans (frameB_modDb (Chan.delById_sameB ?_))
-          simpa using hid
+          simp only [commit_db, modDb_db]
+          exact hid
         have f3 := f2.trans (uNp_frameB (b := b) hab
           (((s.modDb (·.unclaim np.id side)).commit).db.npSidesOf np.id) t false)
         split at e
